@@ -165,7 +165,25 @@ func noReturn(info *types.Info) func(*ast.CallExpr) bool {
 	}
 }
 
+// taggedCase maps a case expression of a tagged switch to the synthesised
+// condition `tag == expr` (go/cfg adds the bare case expression as the node).
+var taggedCase = map[ast.Expr]ast.Expr{}
+
 func newFlow(info *types.Info, body *ast.BlockStmt) *Flow {
+	ast.Inspect(body, func(m ast.Node) bool {
+		sw, ok := m.(*ast.SwitchStmt)
+		if !ok || sw.Tag == nil {
+			return true
+		}
+		for _, cl := range sw.Body.List {
+			for _, e := range cl.(*ast.CaseClause).List {
+				if _, done := taggedCase[e]; !done {
+					taggedCase[e] = &ast.BinaryExpr{X: sw.Tag, Op: token.EQL, Y: e, OpPos: e.Pos()}
+				}
+			}
+		}
+		return true
+	})
 	return &Flow{G: cfg.New(body, noReturn(info)), Info: info, Body: body}
 }
 
@@ -607,6 +625,9 @@ func edgeImplies(b *cfg.Block, si int, pred func(e ast.Expr, val bool) bool) boo
 	cond, _, _ := condOf(b)
 	if cond == nil {
 		return false
+	}
+	if syn, ok := taggedCase[cond]; ok {
+		cond = syn
 	}
 	for _, f := range impliedFacts(cond, si == 0) {
 		if pred(f.expr, f.val) {
